@@ -451,16 +451,20 @@ pub struct ArrV {
     pub len: u64, // u64::MAX >> 1 for unbounded buffers behind input slices
     pub default: Val,
     pub over: BTreeMap<u64, Val>,
+    /// exact-copy provenance: the whole array is an unmodified copy of the named source (an XOF
+    /// read, a generator request, an input field / byte range); cleared by every element write
+    pub tag: Option<Rc<str>>,
 }
 
 impl ArrV {
     pub fn uniform(v: Val, len: u64) -> ArrV {
-        ArrV { len, default: v, over: BTreeMap::new() }
+        ArrV { len, default: v, over: BTreeMap::new(), tag: None }
     }
     pub fn get(&self, i: u64) -> &Val {
         self.over.get(&i).unwrap_or(&self.default)
     }
     pub fn set(&mut self, i: u64, v: Val) {
+        self.tag = None;
         if v == self.default {
             self.over.remove(&i);
         } else {
@@ -481,6 +485,7 @@ impl ArrV {
         acc
     }
     pub fn weak_set(&mut self, lo: u64, hi: u64, v: &Val) {
+        self.tag = None;
         let hi = hi.min(self.len.saturating_sub(1));
         if lo > hi {
             return;
@@ -632,7 +637,7 @@ impl Val {
                 if Rc::ptr_eq(a, b) {
                     return self.clone();
                 }
-                let mut r = ArrV { len: a.len, default: a.default.join(&b.default), over: BTreeMap::new() };
+                let mut r = ArrV { len: a.len, default: a.default.join(&b.default), over: BTreeMap::new(), tag: if a.tag == b.tag { a.tag.clone() } else { None } };
                 let keys: std::collections::BTreeSet<u64> = a.over.keys().chain(b.over.keys()).cloned().collect();
                 for k in keys {
                     let v = a.get(k).join(b.get(k));
@@ -699,6 +704,9 @@ impl Val {
                 None => false,
             }),
             (Val::Arr(a), Val::Arr(b)) if a.len == b.len => {
+                if b.tag.is_some() && a.tag != b.tag {
+                    return false;
+                }
                 if !a.default.leq(&b.default) && (a.over.len() as u64) < a.len {
                     return false;
                 }
@@ -715,7 +723,7 @@ impl Val {
             (Val::Int(a), Val::Int(b)) => Val::Int(a.widen(b)),
             (Val::Tuple(a), Val::Tuple(b)) if a.len() == b.len() => Val::Tuple(Rc::new(a.iter().zip(b.iter()).map(|(x, y)| x.widen(y)).collect())),
             (Val::Arr(a), Val::Arr(b)) if a.len == b.len => {
-                let mut r = ArrV { len: a.len, default: a.default.widen(&b.default), over: BTreeMap::new() };
+                let mut r = ArrV { len: a.len, default: a.default.widen(&b.default), over: BTreeMap::new(), tag: if a.tag == b.tag { a.tag.clone() } else { None } };
                 let keys: std::collections::BTreeSet<u64> = a.over.keys().chain(b.over.keys()).cloned().collect();
                 for k in keys {
                     let v = a.get(k).widen(b.get(k));
@@ -776,6 +784,42 @@ impl Val {
                 variants: e.variants.iter().map(|(k, v)| (*k, v.iter().map(|x| x.strip_atoms(from)).collect())).collect(),
             })),
             other => other.clone(),
+        }
+    }
+
+    /// drop exact-copy provenance (values stored in memo tables are replayed for other concrete inputs)
+    pub fn strip_tags(&self) -> Val {
+        match self {
+            Val::Tuple(t) => Val::Tuple(Rc::new(t.iter().map(|v| v.strip_tags()).collect())),
+            Val::Enum(e) => Val::Enum(Rc::new(EnumV { variants: e.variants.iter().map(|(k, v)| (*k, v.iter().map(|x| x.strip_tags()).collect())).collect() })),
+            Val::Arr(a) => {
+                let mut r = (**a).clone();
+                r.tag = None;
+                r.default = r.default.strip_tags();
+                for v in r.over.values_mut() {
+                    *v = v.strip_tags();
+                }
+                Val::Arr(Rc::new(r))
+            }
+            other => other.clone(),
+        }
+    }
+
+    pub fn with_tag(&self, tag: &str) -> Val {
+        match self {
+            Val::Arr(a) => {
+                let mut r = (**a).clone();
+                r.tag = Some(Rc::from(tag));
+                Val::Arr(Rc::new(r))
+            }
+            other => other.clone(),
+        }
+    }
+
+    pub fn tag_of(&self) -> Option<Rc<str>> {
+        match self {
+            Val::Arr(a) => a.tag.clone(),
+            _ => None,
         }
     }
 
